@@ -47,8 +47,27 @@ type Scenario struct {
 }
 
 func mkCid(name string) cid.Cid {
-	h := sha256.Sum256([]byte("verif-rcvgate-" + name))
+	// distinct CIDs need not have distinct multihashes: "b" is the content of "a" under another codec, "d" is "c" in CID
+	// version 0 and "c" its version-1 form -- four announcements of four CIDs
+	base, form := name, 0
+	switch name {
+	case "b":
+		base, form = "a", 1
+	case "c":
+		form = 2
+	case "d":
+		base, form = "c", 3
+	}
+	h := sha256.Sum256([]byte("verif-cid-" + base))
 	mh, _ := multihash.Encode(h[:], multihash.SHA2_256)
+	switch form {
+	case 1:
+		return cid.NewCidV1(cid.Raw, mh)
+	case 2:
+		return cid.NewCidV1(cid.DagProtobuf, mh)
+	case 3:
+		return cid.NewCidV0(mh)
+	}
 	return cid.NewCidV1(cid.DagJSON, mh)
 }
 
